@@ -325,10 +325,12 @@ func (e *Exec) writeRange(st *State, elemT types.Type, d, s Term, n Term, p toke
 	oldDn := e.bindLocal("dstarr", oldD)
 	keep := Implies(Not(inR), Eq(Select(na, i, m.vsort), Select(oldDn, i, m.vsort)))
 	e.assumps = append(e.assumps, fmt.Sprintf("(assert (forall ((i!w Int)) (! %s :pattern (%s))))", keep.S, Select(oldDn, i, m.vsort).S))
+	// reverse direction in absolute addresses: pattern (select src q) matches every known source element
 	x := Term{"x!w", SInt}
-	srcAt := Select(oldS, Add(sroot, x), m.vsort)
-	dstAt := Select(na, Add(droot, Add(ddelta, Sub(x, sdelta))), m.vsort)
-	rev := Implies(And(Le(sdelta, x), Lt(x, Add(sdelta, n))), Eq(srcAt, dstAt))
+	sbase := Add(sroot, sdelta)
+	srcAt := Select(oldS, x, m.vsort)
+	dstAt := Select(na, Add(dlo, Sub(x, sbase)), m.vsort)
+	rev := Implies(And(Le(sbase, x), Lt(x, Add(sbase, n))), Eq(srcAt, dstAt))
 	// weight: terms created by instantiation must not re-trigger this axiom eagerly (forward/reverse would loop)
 	e.assumps = append(e.assumps, fmt.Sprintf("(assert (forall ((x!w Int)) (! %s :weight 8 :pattern (%s))))", rev.S, srcAt.S))
 	st.heap[key] = e.bindHeap(key, Store(h, SRef(d), na))
